@@ -115,11 +115,7 @@ func (r *RedisInputStream) readLineBytes() ([]byte, error) {
 	}
 	N := pos - r.count - 2
 	line := make([]byte, N)
-	j := 0
-	for i := r.count; i <= N; i++ {
-		line[j] = buf[i]
-		j++
-	}
+	copy(line, buf[r.count:r.count+N])
 	r.count = pos
 	return line, nil
 }
